@@ -47,6 +47,10 @@ type Options struct {
 	PeriodMS int `json:"periodMs,omitempty"`
 	// IdleMS: --shard.max-idle-time in milliseconds when scale-down is on (0 = one hour)
 	IdleMS int `json:"idleMs,omitempty"`
+	// ApplyPauseMS: the coordinator's logger takes this long to write the warning about a shard it leaves alone
+	// (a slow log sink); the harness owns the logger.  Together with PeriodMS and a slowly answering shard this lets
+	// an answer arrive in the middle of a cycle's apply phase.
+	ApplyPauseMS int `json:"applyPauseMs,omitempty"`
 	// TargetLimit: target_limit of the jobs in the coordinator's parsed configuration (0 = none); together with a
 	// few other per-job limits it makes the configuration the coordinator sees a real, parsed one
 	TargetLimit int `json:"targetLimit,omitempty"`
@@ -433,6 +437,15 @@ var quietLog = func() logrus.FieldLogger {
 	return l
 }()
 
+// pauseHook is a slow log sink for warnings.
+type pauseHook struct{ d time.Duration }
+
+func (pauseHook) Levels() []logrus.Level { return []logrus.Level{logrus.WarnLevel} }
+func (h pauseHook) Fire(*logrus.Entry) error {
+	time.Sleep(h.d)
+	return nil
+}
+
 // QuietLog is a logger that prints nothing.
 func QuietLog() logrus.FieldLogger { return quietLog }
 
@@ -621,11 +634,19 @@ func ExecSeq(scs []*Scenario) []*Transcript {
 		opt.MaxIdleTime = maxIdle
 	}
 	rand.Seed(sc0.RandSeed)
+	var coordLog logrus.FieldLogger = quietLog
+	if sc0.Opt.ApplyPauseMS > 0 {
+		l := logrus.New()
+		l.SetOutput(ioutil.Discard)
+		l.SetLevel(logrus.WarnLevel)
+		l.AddHook(pauseHook{time.Duration(sc0.Opt.ApplyPauseMS) * time.Millisecond})
+		coordLog = l
+	}
 	c := coordinator.NewCoordinator(opt, st,
 		func() *prom.ConfigInfo { cur.Lock(); defer cur.Unlock(); return cur.cfg },
 		func(h uint64) *target.ScrapeStatus { cur.Lock(); f := cur.explore; cur.Unlock(); return f(h) },
 		func() map[uint64]*discovery.SDTargets { cur.Lock(); defer cur.Unlock(); return cur.active },
-		prometheus.NewRegistry(), quietLog)
+		prometheus.NewRegistry(), coordLog)
 
 	ctx, cancel := context.WithCancel(context.Background())
 	done := make(chan string, 1)
